@@ -35,8 +35,10 @@ def configs(tier):
 
 
 def env_of(t, levels):
+    # spinning waiters (libgomp default) give the tightest interleavings but starve each other once the sharded
+    # harness processes x threads exceed the cores: passive from 8 threads on and for nested teams
     return {"OMP_NUM_THREADS": str(t), "OMP_MAX_ACTIVE_LEVELS": str(levels), "OMP_NESTED": "true" if levels > 1 else "false",
-            "OMP_DYNAMIC": "false", "OMP_THREAD_LIMIT": "64"}
+            "OMP_DYNAMIC": "false", "OMP_THREAD_LIMIT": "256", "OMP_WAIT_POLICY": "passive" if (t >= 8 or levels > 1) else "active"}
 
 
 def big(g, lo=4, hi=8):
@@ -101,7 +103,7 @@ def echelon_case(g, budget):
 
 def make_cases(seed, tier):
     g = gen.G(seed)
-    n_prod, n_ech = (5, 8) if tier == "quick" else (40, 60)
+    n_prod, n_ech = (8, 12) if tier == "quick" else (40, 60)
     budget = 2.0e8 if tier == "quick" else 6.0e8
     cs = []
     for route in ("mul_mp", "addmul_mp", "mul", "addmul"):
